@@ -137,6 +137,25 @@ def cmd_check(args):
                     obligations.append({'id': '%s::bounded-replay::%s' % (r['unit'], fam), 'slot': None, 'props': [prop], 'status': 'failed',
                                         'kind': 'bounded-replay', 'message': 'the unit is undecided (%s); the bounded replay search found a failing input on the real code: %s' % (one_line('; '.join(r['reasons']), 200), w.get('why')),
                                         'src': None, 'unit': r['unit'], 'witness': w})
+    # functions that cannot be brought within the verifier's reach (registry "bounded_for"): a bounded replay family
+    # of the real code stands in on every run, labelled bounded and never counted as proved
+    done_fams = {b['family'] for b in bounded}
+    for bf in pcfg.get('bounded_for', []):
+        if tier not in bf.get('tiers', ['quick', 'thorough']) or bf['family'] in done_fams:
+            continue
+        try:
+            w = replayers.search_family(bf['family'], prop)
+        except Exception as e:
+            w = None
+            undecided.append('bounded check %s crashed: %r' % (bf['family'], e))
+        bounded.append({'unit': None, 'family': bf['family'], 'found': bool(w), 'stands_in_for': bf['functions'], 'bound': bf['bound']})
+        if w:
+            obligations.append({'id': 'bounded::%s' % bf['family'], 'slot': None, 'props': [prop], 'status': 'failed', 'kind': 'bounded-replay',
+                                'message': 'bounded check (stand-in for %s, %s) found a failing input on the real code: %s' % (bf['functions'], bf['bound'], w.get('why')),
+                                'src': None, 'unit': 'bounded', 'witness': w})
+        else:
+            obligations.append({'id': 'bounded::%s' % bf['family'], 'slot': None, 'props': [prop], 'status': 'discharged', 'kind': 'bounded-replay (not a proof)',
+                                'src': None, 'unit': 'bounded', 'count': 0})
     for a in pcfg.get('assumptions', []):
         if a not in assumptions:
             assumptions.append(a)
